@@ -81,6 +81,18 @@ def compress_case(ctx, idx, rng):
     ends = (psi.qD[0].copy(), psi.qD[-1].copy())
     snap = {'qd': psi.qd.copy(), 'qD': [q.copy() for q in psi.qD], 'A': [a.copy() for a in psi.A], 'tol': tol, 'mode': mode}
     ctx.case(('compress', kind, f'L{min(L, 4)}', mode, 'tol0' if tol == 0 else tol_kind, struct), sample={'qD': snap['qD'], 'tol': tol, 'mode': mode, 'L': L, 'd': d}, info=snap)
+    K = 0
+    if idx % 5 == 3 and all(np.issubdtype(a.dtype, np.inexact) and a.dtype not in (np.float32, np.complex64) for a in psi.A):
+        # tensors scaled by exact powers of two up to 2**+-830 (the preparatory orthonormalisation sweep keeps every intermediate representable):
+        # everything must be as for the unscaled state, with nrm multiplied by the known power
+        from .c01 import sweep_exponents
+        ks = sweep_exponents(rng, L, 'right' if mode == 'left' else 'left')
+        K = int(sum(ks))
+        for i, k in enumerate(ks):
+            if k:
+                psi.A[i] = (np.ldexp(psi.A[i].real, k) + 1j * np.ldexp(psi.A[i].imag, k)) if np.iscomplexobj(psi.A[i]) else np.ldexp(psi.A[i], k)
+        snap['binary_exponents_applied_to_A'] = ks
+        ctx.event('compress_extreme_scale_cases')
     res = psi.compress(tol, mode) if not (mode == 'left' and idx % 3 == 0) else psi.compress(tol)          # default mode is 'left'
     detail = snap
     if not ctx.ok('compress.returns-pair', isinstance(res, tuple) and len(res) == 2, f'returned {res!r}', detail):
@@ -89,7 +101,7 @@ def compress_case(ctx, idx, rng):
     okr = all(np.isrealobj(x) and np.isfinite(x) for x in (nrm, scale))
     if not ctx.ok('compress.real-finite', bool(okr), f'(nrm, scale) = {res!r}', detail):
         return
-    nrm, scale = float(nrm), float(scale)
+    nrm, scale = float(np.ldexp(float(nrm), -K)), float(scale)
     ctx.close('compress.nrm-equals-norm', abs(nrm - n0), 1e-10 * n0, f'nrm {nrm} != {n0}', detail)
     ctx.ok('compress.scale-in-range', np.sqrt(max(0.0, 1 - L * tol)) - 1e-10 <= scale <= 1 + 1e-10,
            f'scale {scale} outside [sqrt(1-L*tol)={np.sqrt(max(0.0, 1 - L * tol))}, 1]', detail)
@@ -156,10 +168,14 @@ def from_vector_case(ctx, idx, rng):
         psi = gen.rand_mps(rng, np.zeros(d, dtype=int), L, 'random', Dmax=3)
         v = refs.dense_state(psi.A) + 1e-4 * rng.normal(size=n)
     v = v * float(rng.choice([1, 1e-4, 1e4]))
+    kx = int(rng.choice([0, 0, 0, -560, 560, -830, 830]))         # exact power-of-two scaling far outside the unit range (entries ~1e+-169, 1e+-250)
+    v_unscaled = np.array(v, copy=True)
+    if kx:
+        v = (np.ldexp(v.real, kx) + 1j * np.ldexp(v.imag, kx)) if np.iscomplexobj(v) else np.ldexp(np.asarray(v, dtype=float), kx)
     tol = float(rng.choice(GRID + [0.5 / L, 0.9 / L]))
     if tol >= 1.0 / L:
         tol = 0.5 / L
-    ctx.case(('from_vector', kind, f'd{d}', f'L{min(L, 4)}', 'tol0' if tol == 0 else 'tol>0'), sample={'d': d, 'L': L, 'tol': tol, 'v': v[:16]},
+    ctx.case(('from_vector', kind, f'd{d}', f'L{min(L, 4)}', 'tol0' if tol == 0 else 'tol>0', 'unit-scale' if kx == 0 else ('tiny' if kx < 0 else 'huge')), sample={'d': d, 'L': L, 'tol': tol, 'v': v[:16]},
              info={'d': d, 'L': L, 'tol': tol, 'v': v})
     detail = {'d': d, 'L': L, 'tol': tol, 'v': v}
     v0 = np.array(v, copy=True)
@@ -168,7 +184,12 @@ def from_vector_case(ctx, idx, rng):
     inv = refs.mps_invariant(psi)
     if not ctx.ok('from_vector.invariant', inv is None, str(inv), detail):
         return
-    err = float(np.linalg.norm(refs.dense_state(psi.A) - v0)) / float(np.linalg.norm(v0))
+    ctx.ok('from_vector.input-unchanged', np.array_equal(v, v0), 'input vector modified', detail)
+    dense = refs.dense_state(psi.A)
+    if kx:
+        dense = np.ldexp(dense.real, -kx) + 1j * np.ldexp(dense.imag, -kx)
+        v0 = v_unscaled
+    err = float(np.linalg.norm(dense - v0)) / float(np.linalg.norm(v0))
     ctx.ok('from_vector.error-bound', err <= np.sqrt(L * tol) + 1e-10, f'relative error {err:.3e} > sqrt(L*tol) = {np.sqrt(L * tol):.3e}', detail)
     if tol == 0:
         ctx.close('from_vector.tol0-exact', err, 1e-10, 'zero tolerance must reproduce the vector', detail)
@@ -182,7 +203,7 @@ def from_vector_case(ctx, idx, rng):
     c.A = [a.copy() for a in psi.A]
     c.qD = [np.array(q, copy=True) for q in psi.qD]
     n2 = c.orthonormalize('left' if idx % 2 else 'right')
-    ctx.close('from_vector.result-usable', abs(float(n2) - np.linalg.norm(refs.dense_state(psi.A))), 1e-9 * np.linalg.norm(v0), 'orthonormalize on a from_vector result', detail)
+    ctx.close('from_vector.result-usable', abs(float(np.ldexp(float(n2), -kx)) - np.linalg.norm(dense)), 1e-9 * np.linalg.norm(v0), 'orthonormalize on a from_vector result', detail)
 
 
 def large_case(ctx, idx, rng):
